@@ -244,9 +244,10 @@ func execQueueFrom(c queueFromCase, _ core.Source) (res core.Result) {
 // a queue whose producer is in the middle of an AddValue (the value is listed, its token not yet sent: the queue
 // lists more values than it reports as its size).
 type stackFromQueueCase struct {
-	Cap    uint `json:"cap"`
-	Values int  `json:"values"`
-	Delay  int  `json:"delay"` // the builder starts when the producer has added this many values
+	Cap    uint   `json:"cap"`
+	Values int    `json:"values"`
+	Delay  int    `json:"delay"`            // the builder starts when the producer has added this many values
+	Target string `json:"target,omitempty"` // what is made from the queue: Stack (default) or Queue
 }
 
 func execStackFromQueue(c stackFromQueueCase, src core.Source) (res core.Result) {
@@ -260,6 +261,13 @@ func execStackFromQueue(c stackFromQueueCase, src core.Source) (res core.Result)
 	defer uninstall()
 	var g *sched.G
 	builder := func() {
+		if c.Target == "Queue" {
+			// a queue made from a queue in use: the constructor returns (it does not wait on the capacity of
+			// the queue it is making), and the new queue holds what the source listed
+			q2 := col.Queue[int](n).MakeFromSequence(q)
+			size, capacity, listed, built = q2.GetSize(), q2.GetCapacity(), len(q2.AsArray()), true
+			return
+		}
 		st := col.Stack[int](n).MakeFromSequence(q)
 		size, capacity, listed, built = st.GetSize(), st.GetCapacity(), len(st.AsArray()), true
 		if uint(size) >= capacity {
@@ -282,6 +290,22 @@ func execStackFromQueue(c stackFromQueueCase, src core.Source) (res core.Result)
 	r := s.Run()
 	desc := fmt.Sprintf("Stack.MakeFromSequence of a queue (capacity %d) whose producer adds %d values", c.Cap, c.Values)
 	if g == nil {
+		return
+	}
+	if c.Target == "Queue" {
+		desc = fmt.Sprintf("Queue.MakeFromSequence of a queue (capacity %d) whose producer adds %d values", c.Cap, c.Values)
+		switch {
+		case g.Panic != nil:
+			res.Violation = core.Violate("C05/ctor/panicked", "%s panicked: %s", desc, lib.Short(g.Panic))
+		case !built:
+			res.Violation = core.Violate("C05/ctor/self-deadlock", "%s never returns: the constructing goroutine blocks on the capacity of the queue it is making; blocked: %v", desc, r.Blocked)
+		case uint(size) > capacity || listed != size:
+			res.Violation = core.Violate("C05/ctor/contents", "%s returned a queue of %d values (array view %d) with capacity %d", desc, size, listed, capacity)
+		}
+		res.NonTrivial = size > 0
+		if r.AnyBlocked {
+			res.Classes = append(res.Classes, "producer-blocked")
+		}
 		return
 	}
 	if g.Panic != nil {
